@@ -195,12 +195,16 @@ def run_tlc(
     return r
 
 
-def tlc_must_pass(r, what):
+def tlc_must_pass(r, what, dead_ok=()):
     """A model-checking run of the property-conforming spec must finish cleanly; anything else
     is a failure of the machinery (the spec itself is wrong), not a violation by jinns."""
     if r.rc != 0 or r.errors:
         tail = "\n".join(r.out.splitlines()[-40:])
         raise MachineryError(f"TLC run '{what}' failed (rc={r.rc}): {r.errors[:3]}\n{tail}")
+    # vacuity guard (runs made with -coverage): every named action of the model must have been taken at least once
+    dead = [a for a, (dist, tot) in r.coverage.items() if a != "Init" and tot == 0 and a not in dead_ok]
+    if dead:
+        raise MachineryError(f"TLC run '{what}': action(s) {dead} were never taken within the bounds (vacuous model)")
 
 
 def tlc_must_fail(r, what, needle):
